@@ -186,6 +186,102 @@ def run_term(part, kind, src, domains, strat, deep):
         part.count("cspuz_trees")
 
 
+def hash_of(text):
+    """Deterministic small hash (Python's hash() of str is salted unless PYTHONHASHSEED is fixed; do not rely on it)."""
+    h = 0
+    for ch in text:
+        h = (h * 131 + ord(ch)) % 1000003
+    return h
+
+
+def run_scale(part, n):
+    """Large flat operators and deep chains with every variable pinned, so that the expected verdict is known by
+    construction (no enumeration): thresholds around 32 / 64 / 128 / 256."""
+    from cspuz import Solver, alldifferent, count_true, fold_and, fold_or
+    from cspuz.array import BoolArray1D, IntArray1D
+
+    def solve(build):
+        s = Solver()
+        c = build(s)
+        try:
+            return s.find_answer(backend=BACKEND), s
+        except Exception as e:
+            return e, s
+
+    def expect(name, build, want):
+        part.count("evaluations")
+        part.count("scale_programs")
+        got, s = solve(build)
+        if got is not want:
+            part.violation("scale:%s" % name, {"form": "scale", "n": n, "program": name}, {"find_answer": repr(got)[:200], "expected": want})
+        else:
+            part.add("scale", (name, n))
+
+    def pinned_bools(s, vals):
+        xs = [s.bool_var() for _ in vals]
+        for x, v in zip(xs, vals):
+            s.ensure(x if v else ~x)
+        return xs
+
+    def pinned_ints(s, vals):
+        xs = [s.int_var(min(vals) - 1, max(vals) + 1) for _ in vals]
+        for x, v in zip(xs, vals):
+            s.ensure(x == v)
+        return xs
+
+    alltrue = [True] * n
+    # count_true over n pinned booleans: == n satisfiable, == n - 1 not; the last operand matters
+    expect("count_true==n", lambda s: s.ensure(count_true(pinned_bools(s, alltrue)) == n), True)
+    expect("count_true==n-1", lambda s: s.ensure(count_true(pinned_bools(s, alltrue)) == n - 1), False)
+    expect("count_true(last-only)==1", lambda s: s.ensure(count_true(pinned_bools(s, [False] * (n - 1) + [True])) == 1), True)
+    expect("array.count_true>=n", lambda s: s.ensure(BoolArray1D(pinned_bools(s, alltrue)).count_true() >= n), True)
+    expect("fold_or(last-only)", lambda s: s.ensure(fold_or(pinned_bools(s, [False] * (n - 1) + [True]))), True)
+    expect("fold_or(none)", lambda s: s.ensure(fold_or(pinned_bools(s, [False] * n))), False)
+    expect("fold_and(all)", lambda s: s.ensure(fold_and(pinned_bools(s, alltrue))), True)
+    expect("fold_and(last-false)", lambda s: s.ensure(fold_and(pinned_bools(s, [True] * (n - 1) + [False]))), False)
+    expect("array.fold_and(last-false)", lambda s: s.ensure(BoolArray1D(pinned_bools(s, [True] * (n - 1) + [False])).fold_and()), False)
+    vals = list(range(n))
+    expect("alldifferent(distinct)", lambda s: s.ensure(alldifferent(pinned_ints(s, vals))), True)
+    if n >= 2:
+        expect("alldifferent(last==first)", lambda s: s.ensure(alldifferent(pinned_ints(s, vals[:-1] + [0]))), False)
+        expect("array.alldifferent(last==first)", lambda s: s.ensure(IntArray1D(pinned_ints(s, vals[:-1] + [0])).alldifferent()), False)
+    # flat sum via Python's sum() = left-deep chain of binary +, depth n (deeper than the interpreter's recursion limit for n >= ~450)
+    if True:
+        ones = [1] * n
+
+        def chain(s, target):
+            xs = pinned_ints(s, ones)
+            acc = xs[0]
+            for x in xs[1:]:
+                acc = acc + x
+            s.ensure(acc == target)
+
+        expect("chain-sum==n", lambda s: chain(s, n), True)
+        expect("chain-sum==n-1", lambda s: chain(s, n - 1), False)
+
+        def chain_and(s, last):
+            xs = pinned_bools(s, [True] * (n - 1) + [last])
+            acc = xs[0]
+            for x in xs[1:]:
+                acc = acc & x
+            s.ensure(acc)
+
+        expect("chain-and(all)", lambda s: chain_and(s, True), True)
+        expect("chain-and(last-false)", lambda s: chain_and(s, False), False)
+    # many constraints / many variables in one program (declaration order interleaved)
+    def many(s, bad):
+        for i in range(n):
+            b = s.bool_var()
+            v = s.int_var(0, 3)
+            s.ensure(b == (v >= 2))
+            s.ensure(v == (i % 4))
+            if bad and i == n - 1:
+                s.ensure(b != ((i % 4) >= 2))
+
+    expect("many-constraints", lambda s: many(s, False), True)
+    expect("many-constraints(last-contradicts)", lambda s: many(s, True), False)
+
+
 def run_pair(part, src1, src2, strat):
     from cspuz import Solver
 
@@ -200,8 +296,27 @@ def run_pair(part, src1, src2, strat):
     if not (progs.admissible("bool", r1) and progs.admissible("bool", r2)):
         part.count("skipped_not_a_program")
         return
-    s.ensure(r1)
-    s.ensure([r2])
+    # every way of handing constraints to ensure(): single, list, varargs, tuple, one-shot iterators, nested
+    form = (hash_of(src1) + hash_of(src2)) % 7
+    if form == 0:
+        s.ensure(r1)
+        s.ensure([r2])
+    elif form == 1:
+        s.ensure(r1, r2)
+    elif form == 2:
+        s.ensure((c for c in (r1, r2)))
+    elif form == 3:
+        s.ensure(map(lambda c: c, [r1, r2]))
+    elif form == 4:
+        s.ensure([r1, (c for c in [r2])])
+    elif form == 5:
+        s.ensure((r1, [r2]), [])
+    else:
+        s.ensure(iter([r1]), iter((r2,)))
+    case["posting_form"] = form
+    if len(s.constraints) != 2:
+        part.violation("ensure:lost-or-duplicated-constraints[form%d]" % form, case, {"posted": 2, "stored": len(s.constraints)})
+        return
     variables = list(s.variables)
     sols = []
     for env in refsem.assignments(variables):
@@ -416,6 +531,8 @@ def worker(shard, part):
     elif what == "session":
         _, prefix, depth = shard
         session_worker_prefix(prefix, depth, part)
+    elif what == "scale":
+        run_scale(part, shard[1])
 
 
 def prepare(tier):
@@ -446,6 +563,8 @@ def main(tier, seed, only=None):
     npairs = len(pair_terms) ** 2
     for lo in range(0, npairs, 1500):
         shards.append(("pairs", "pairs", lo, min(npairs, lo + 1500)))
+    for n in ((1, 2, 3, 31, 32, 33, 64, 65, 127, 128, 129, 200, 255, 256, 257, 1100) if tier == "quick" else (1, 2, 3, 15, 16, 17, 31, 32, 33, 63, 64, 65, 100, 127, 128, 129, 200, 255, 256, 257, 300, 400, 511, 512, 513, 1100, 3000)):
+        shards.append(("scale", n))
     depth = 5 if tier == "quick" else 6
     # sessions: parallelise over the first two events
     first = build([]).enabled()
@@ -465,7 +584,9 @@ def main(tier, seed, only=None):
         "over leaf sets FULL={i0,i1,-1,0,2 | b0,b1,True,False} (k<=1%s), RED={i0,i1,2 | b0,b1,True} and MIN={i0,1 | b0,False} "
         "(%s); each boolean root asserted, negated and checked for its whole truth table, each integer root compared with "
         "its min/max/max+1 (k<=1: every) attained value; <=1-operator stratum repeated under 4 more domain pairs "
-        "(singleton, negative, wide); conjunctions of every ordered pair of <=1-operator boolean terms.  E2: BFS over sessions "
+        "(singleton, negative, wide); conjunctions of every ordered pair of <=1-operator boolean terms posted through 7 forms of ensure() (single, varargs, list, tuple, generator, "
+        "map, nested iterators).  Scale family (not exhaustive): flat count_true / fold_or / fold_and / alldifferent and left-deep + / & chains over n pinned "
+        "variables for n around 32, 64, 128, 256 (thorough 512), where the expected verdict is known by construction.  E2: BFS over sessions "
         "of declare/ensure/find_answer/solve events to depth %d (<= %d variables, <= %d constraints) with canonical-state dedup; "
         "each find_answer judged against brute-force solutions and against a fresh Solver.  Non-trivial = programs whose "
         "tree reached the backend (not folded by Python), counted per verdict." % (", k=2" if tier != "quick" else "", "k=2 quick; FULL k=2 and MIN k=3 thorough", depth, MAX_VARS, MAX_CONS),
